@@ -6,11 +6,13 @@
    no theorem bounds sizes or history lengths.  Proved: key identity, lookup refinement
    (sound and complete under Inv), Reset/clear refinement with Inv preservation, insertion of a
    new key (map effect for all three cases; full Inv in small mode), len_is_border, shape
-   preservation.  NOT proved: completeness of lookups after a large-mode insertion (chains
-   I1-I3), hence grow/cleanup/mixedTable.insert and the fold over whole histories
-   (table_is_map), traversal_exact — see notes/C03.md. *)
+   preservation, and (round 3) the large-mode chain invariant: implies complete lookups, preserved by
+   the three cases of insertNewKeyValue and by value updates, re-established by grow/cleanup.
+   NOT proved: mixedTable.grow's array migration and therefore mixedTable.insert as a whole, the
+   fold over whole histories (table_is_map), traversal_exact, float/float key_normalisation —
+   see notes/C03.md. *)
 From Coq Require Import ZArith NArith List Bool.
-From GV Require Import Table.ModelValue Table.Model Table.Spec Table.ValueProofs Table.Proofs Table.Inv Table.Refine Table.RefineIns Table.RefineTable.
+From GV Require Import Table.ModelValue Table.Model Table.Spec Table.ValueProofs Table.Proofs Table.Inv Table.Refine Table.RefineIns Table.RefineTable Table.Chains Table.ChainsIns Table.ChainsInv Table.TableInv.
 Import ListNotations.
 
 (* --- key identity --- *)
@@ -97,6 +99,97 @@ Theorem C03_len_is_border : forall hash t l, Inv hash t -> mlen hash t = Ok l ->
   (l = 0 \/ abs t (VInt (Z.of_nat l)) <> VNil) /\ abs t (VInt (Z.of_nat l + 1)) = VNil.
 Proof. exact len_is_border. Qed.
 Print Assumptions C03_len_is_border.
+
+(* --- round 3: the large-mode chain invariant (hashtable.go l.192-229, DESIGN Appendix D.1).
+   Good sl mask R: R p is the rest of the chain whose head is slot p; (I1) p :: R p has no repetition and is a
+   linked path ending without hasNext, (I2) every member's key has primary slot p, (I3) the head is not chained
+   and sits in its primary slot, members are chained and occupied, every chained slot belongs to the chain of its
+   primary slot whose head exists, empty slots carry no flags.
+   hash_compat : Equals-equal (well-formed) values have equal hashes — true of Value.Hash after repair 3. --- *)
+
+(* the chain invariant makes lookups terminate and complete (large mode) *)
+Theorem C03_chains_give_complete_lookup : forall hash,
+  (forall a b, wf a = true -> wf b = true -> equals a b = true -> hash a = hash b) ->
+  forall sl b R, length sl = 2 ^ b -> smallHashTableSize <= 2 ^ b - 1 ->
+  KBase (kvs sl) -> Good hash sl (2 ^ b - 1) R -> HFind hash sl (2 ^ b - 1).
+Proof. exact Good_HFind. Qed.
+Print Assumptions C03_chains_give_complete_lookup.
+
+(* insertNewKeyValue — all three cases — preserves the chain invariant *)
+Theorem C03_insert_preserves_chains : forall hash sl mask R k v nf sl' b,
+  smallHashTableSize <= mask -> Good hash sl mask R -> nf_ok sl nf -> is_nil k = false ->
+  insertNew hash sl mask k v nf = Ok (sl', b) -> exists R', Good hash sl' mask R'.
+Proof. exact insertNew_Good. Qed.
+Print Assumptions C03_insert_preserves_chains.
+
+(* value updates (Reset, clears/tombstones, setExisting) do not touch the chain invariant: it depends on the shape only *)
+Theorem C03_chains_depend_on_shape : forall hash sl sl' mask R,
+  map shape sl = map shape sl' -> Good hash sl mask R -> Good hash sl' mask R.
+Proof. exact Good_shape. Qed.
+Print Assumptions C03_chains_depend_on_shape.
+
+(* HInvG = size 2^base, unique normalised keys, nextFree, empty slots hold nothing, chains in large mode.
+   It implies HInv (hence C03_get_refines applies) ... *)
+Theorem C03_inv_gives_complete_lookup : forall hash,
+  (forall a b, wf a = true -> wf b = true -> equals a b = true -> hash a = hash b) ->
+  forall t, HInvG hash t -> HInv hash t.
+Proof. exact HInvG_HInv. Qed.
+Print Assumptions C03_inv_gives_complete_lookup.
+
+(* ... and it is preserved by hashTable.insertNew in EVERY mode, the abstract map gaining exactly k => v
+   (this closes the _partial of C03_insert_new_key_partial) *)
+Theorem C03_inv_preserved_insert : forall hash,
+  (forall a b, wf a = true -> wf b = true -> equals a b = true -> hash a = hash b) ->
+  forall t k v t', HInvG hash t -> gkey k -> kabsent (kvs (slots t)) k ->
+  hinsertNew hash (Some t) k v = Ok t' ->
+  HInvG hash t' /\ hbase t' = hbase t /\
+  (forall k', gkey k' -> klook (kvs (slots t')) k' = if equals k k' then v else klook (kvs (slots t)) k') /\
+  (forall k2, kabsent (kvs (slots t)) k2 -> equals k k2 = false -> kabsent (kvs (slots t')) k2).
+Proof. exact hinsertNew_G. Qed.
+Print Assumptions C03_inv_preserved_insert.
+
+(* grow and cleanup (copyItems = a fold of insertions into an empty table) re-establish the invariant,
+   keep the abstract map (tombstones vanish) and introduce no key *)
+Theorem C03_inv_preserved_grow : forall hash,
+  (forall a b, wf a = true -> wf b = true -> equals a b = true -> hash a = hash b) ->
+  forall h t', HInvGO hash h -> hgrow hash h = Ok t' ->
+  HInvG hash t' /\ (forall k', gkey k' -> klook (kvs (slots t')) k' = habs h k') /\
+  (forall k2, is_nil k2 = false -> (forall t, h = Some t -> kabsent (kvs (slots t)) k2) -> kabsent (kvs (slots t')) k2).
+Proof. exact hgrow_G. Qed.
+Print Assumptions C03_inv_preserved_grow.
+
+Theorem C03_inv_preserved_cleanup : forall hash,
+  (forall a b, wf a = true -> wf b = true -> equals a b = true -> hash a = hash b) ->
+  forall t t', HInvG hash t -> hcleanup hash t = Ok t' ->
+  HInvG hash t' /\ hbase t' = hbase t /\ (forall k', gkey k' -> klook (kvs (slots t')) k' = klook (kvs (slots t)) k') /\
+  (forall k2, is_nil k2 = false -> kabsent (kvs (slots t)) k2 -> kabsent (kvs (slots t')) k2).
+Proof. exact hcleanup_G. Qed.
+Print Assumptions C03_inv_preserved_cleanup.
+
+(* whole-table invariant InvG (array part + HInvG + no live array-range integer key in the hash part) is preserved
+   by Table.Reset and every clear (with C03_reset_refines for the effect on the abstract map) *)
+Theorem C03_inv_preserved_reset : forall hash,
+  (forall a b, wf a = true -> wf b = true -> equals a b = true -> hash a = hash b) ->
+  forall t k v t' b, InvG hash t -> gkey (norm k) -> treset hash t k v = Ok (t', b) -> InvG hash t'.
+Proof. exact treset_G. Qed.
+Print Assumptions C03_inv_preserved_reset.
+
+(* traversal (partial): for a key held by slot i — live or tombstone — hashTable.next continues with the first
+   live slot after position i; and positions never change under value updates (C03_reset_keeps_shape,
+   C03_chains_depend_on_shape, findSlot depends on the shape only).  _partial: the statement "every key present
+   throughout is visited exactly once" over a whole interleaved traversal (traversal_exact) is not proved. *)
+Theorem C03_traversal_next_position_partial : forall hash,
+  (forall a b, wf a = true -> wf b = true -> equals a b = true -> hash a = hash b) ->
+  forall t k i s, HInvG hash t -> gkey k ->
+  nth_error (slots t) i = Some s -> equals (skey s) k = true ->
+  hnext hash (Some t) k = Ok (hnextFrom (slots t) (S i)).
+Proof. exact hnext_position. Qed.
+Print Assumptions C03_traversal_next_position_partial.
+
+Theorem C03_position_stable : forall hash sl sl' mask k, map shape sl = map shape sl' ->
+  findSlot hash sl mask k = findSlot hash sl' mask k.
+Proof. exact position_stable. Qed.
+Print Assumptions C03_position_stable.
 
 (* the hypotheses are satisfiable *)
 Theorem C03_inv_nonvacuous : forall hash, Inv hash empty_table /\ HInv hash (mkH [empty_slot] (Some 0) 0).
